@@ -41,11 +41,28 @@ class IllConditioned(Exception):
 # ------------------------------------------------------------------ generation
 
 
-def gen_ast(rng: Any, depth: int, nleaf: int, api: bool, max_leaves: list[int]) -> Any:
+CLIP_BOUNDS = [None, -5.0, 0.0, 2.5, 100.0]
+
+
+def gen_ast(rng: Any, depth: int, nleaf: int, api: bool, max_leaves: list[int], clip: bool = False) -> Any:
+    if clip and rng.random() < 0.15:
+        # a clip step (FormulaBuilder.push_clipper) on a metric or on a parenthesised sub-expression
+        lo, hi = rng.choice(CLIP_BOUNDS), rng.choice(CLIP_BOUNDS)
+        if lo is not None and hi is not None and lo > hi:
+            lo, hi = hi, lo
+        if lo is None and hi is None:
+            lo = 0.0
+        return ["un", "clip", gen_ast(rng, max(0, depth - 1), nleaf, api, max_leaves, clip), [lo, hi]]
     if depth == 0 or rng.random() < 0.22 or max_leaves[0] <= 1:
         max_leaves[0] -= 1
         return ["leaf", rng.randrange(nleaf)]
     r = rng.random()
+    if clip:
+        op = rng.choice(BINOPS)
+        left = gen_ast(rng, depth - 1, nleaf, api, max_leaves, clip)
+        right = (["const", float(rng.choice([-3, -2, -0.5, 0.5, 2, 3, 4]))] if rng.random() < 0.12
+                 else gen_ast(rng, depth - 1, nleaf, api, max_leaves, clip))
+        return ["bin", op, left, right]
     if api and r < 0.12:
         return ["un", rng.choice(["consumption", "production"]), gen_ast(rng, depth - 1, nleaf, api, max_leaves)]
     if api and r < 0.3:
@@ -120,6 +137,13 @@ def evb(a: Any, vals: list[Any]) -> Any:
         if x is BOT:
             return BOT
         v, e = x
+        if a[1] == "clip":
+            lo, hi = a[3]
+            if lo is not None:
+                v = max(v, F(lo))
+            if hi is not None:
+                v = min(v, F(hi))
+            return (v, e)
         return ((max(v, 0) if a[1] == "consumption" else max(-v, 0)), e)
     op = a[1]
     if op in ("min", "max"):
@@ -247,6 +271,34 @@ def build_api(a: Any, engines: list[Any]) -> Any:
     return getattr(left, op)(right)
 
 
+def push_ast(fb: Any, a: Any, mk_rx: Any, leaf_naz: list[bool], parent: str | None = None, right: bool = False) -> None:
+    """Drive a FormulaBuilder from the AST (in-order pushes with the minimal parentheses), incl. clip steps."""
+    k = a[0]
+    if k == "leaf":
+        fb.push_metric(f"#{a[1] + 1}", mk_rx(a[1]), nones_are_zeros=leaf_naz[a[1]])
+    elif k == "const":
+        fb.push_constant(float(a[1]))
+    elif k == "un":  # clip
+        lo, hi = a[3]
+        wrap = a[2][0] != "leaf"
+        if wrap:
+            fb.push_oper("(")
+        push_ast(fb, a[2], mk_rx, leaf_naz)
+        if wrap:
+            fb.push_oper(")")
+        fb.push_clipper(lo, hi)
+    else:
+        op = a[1]
+        need = parent is not None and (PREC[op] < PREC[parent] or (right and PREC[op] == PREC[parent]))
+        if need:
+            fb.push_oper("(")
+        push_ast(fb, a[2], mk_rx, leaf_naz, op, False)
+        fb.push_oper(op)
+        push_ast(fb, a[3], mk_rx, leaf_naz, op, True)
+        if need:
+            fb.push_oper(")")
+
+
 def encode(v: float, miss: str | None) -> Any:
     from frequenz.quantities import Quantity
 
@@ -331,6 +383,10 @@ async def run_program(prog: dict[str, Any], out: dict[str, Any], pace_timeout: f
                 else:
                     fb.push_oper(tok.value)
             eng = fb.build()
+        elif mode == "builderx":
+            fb = FormulaBuilder("t", Quantity)
+            push_ast(fb, prog["ast"], lambda i: chans[i].new_receiver(limit=200), leaf_naz)
+            eng = fb.build()
         else:
             engines = [FormulaEngine.from_receiver(f"e{i}", chans[i].new_receiver(limit=200), Quantity,
                                                    nones_are_zeros=leaf_naz[i]) for i in range(n)]
@@ -340,6 +396,12 @@ async def run_program(prog: dict[str, Any], out: dict[str, Any], pace_timeout: f
     await asyncio.sleep(0)
     missing = prog.get("missing") or [[None] * n for _ in prog["vectors"]]
     rounds = out["rounds"]
+    # streams that begin earlier than others: extra, older samples on some inputs (the formula has to skip them)
+    for i, extra in enumerate(prog.get("prelude") or []):
+        for j in range(extra, 0, -1):
+            await senders[i].send(Sample(T0 - timedelta(seconds=j), Quantity(9000.0 + 10 * i + j)))
+    if prog.get("prelude"):
+        await asyncio.sleep(0.01)
     for k, vec in enumerate(prog["vectors"]):
         ts = T0 + timedelta(seconds=k)
         for i in range(n):
@@ -370,7 +432,7 @@ def ref_values(prog: dict[str, Any], k: int) -> list[Any]:
         if m is None:
             vals.append(F(prog["vectors"][k][i]))
         else:
-            zero = bool(prog.get("naz")) if prog["mode"] != "builder" else False
+            zero = bool(prog.get("naz")) if prog["mode"] not in ("builder", "builderx") else False
             zero = zero or bool((prog.get("leaf_naz") or [False] * n)[i])
             vals.append(F(0) if zero else BOT)
     return vals
